@@ -107,6 +107,10 @@ class InMemoryMessageBroker(MessageBrokerT):
                 q.processing.remove(msg)
                 q.taken_by.pop(msg, None)
                 break
+        else:
+            # the message isn't in flight anymore (e.g. consumer's finish has returned it) -
+            # adding it one more time would duplicate it
+            return
         self.__put_message(key, payload, params)
 
         await asyncio.sleep(0)
